@@ -8,11 +8,13 @@
  * Two CUTS WITH PROOF OBLIGATIONS keep the query tractable (without them the transport choice is a symbolic
  * value for CBMC, all four branches of the dispatch are encoded and the 64 KiB URL buffer is written at symbolic
  * offsets: out of memory).  The client object's helper pointers uriSplit / getClientByUriScheme - first CHECKed
- * to be net.c's functions - are redirected to the wrappers below.  Each wrapper runs the REAL function on the
- * real arguments, CHECKs that its results are exactly the expected ones (the H-1 / H-2 property, proved here in
- * situ for this very input) and then returns the expected values in a form whose shape is concrete for CBMC
- * (fresh strings of constant length / a constant transport code).  Because of the CHECK the substituted values
- * are equal to what the real function returned, so the code after the call is analysed on the same values.
+ * to be net.c's functions - are redirected to the wrappers below.  A wrapper runs the REAL function on the real
+ * arguments, CHECKs that its results are exactly the expected ones and then returns the expected values in a
+ * form whose shape is concrete for CBMC (fresh strings of constant length / a constant transport code).  Because
+ * of the CHECK the substituted values equal what the real function returned, so the code after the call is
+ * analysed on the same values.  getClientByUriScheme is always checked in situ; for uriSplit (the expensive
+ * part: the URL parser) the in-situ run is done in the instances built with C20_SPLIT_INSITU=1, the other
+ * instances rely on h1_split proving the same statement for the same shape (same generator, same defines).
  *
  * Expected, from the property text (SCHEME_CLASS is derived from the instance's scheme by the oracle's own
  * table below, not by the code's):
@@ -46,6 +48,9 @@
 #endif
 #ifndef C20_EXTENDER
 #define C20_EXTENDER 0       /* 0: setAggregator, 1: setExtender */
+#endif
+#ifndef C20_SPLIT_INSITU
+#define C20_SPLIT_INSITU 0   /* 1: run the real uriSplit inside this harness as well (see cut_uriSplit) */
 #endif
 /* oracle's scheme classes: 1 http, 2 https, 3 tcp, 4 file, 0 other */
 #ifndef C20_CLASS
@@ -87,59 +92,8 @@ int KSI_HttpClient_setReadTimeoutSeconds(KSI_NetworkClient *c, int v) { (void)c;
 int KSI_TcpClient_setTransferTimeoutSeconds(KSI_NetworkClient *c, int v) { (void)c; (void)v; return KSI_OK; }
 
 
-/* ---- cut 1: uriSplit ---- */
-static char *dupn(const char *s, unsigned n) {          /* fresh NUL-terminated copy of n characters */
-	char *d = KSI_malloc(n + 1);
-	for (unsigned i = 0; i < n; i++) d[i] = s[i];
-	d[n] = 0;
-	return d;
-}
-static unsigned cut_split_calls, cut_scheme_calls;
-static int cut_uriSplit(const char *uri, char **scheme, char **user, char **pass, char **host, unsigned *port, char **path, char **query, char **fragment) {
-	cut_split_calls++;
-	int res = uriSplit(uri, scheme, user, pass, host, port, path, query, fragment);
-	int ok = (res == KSI_OK) && uri == C20.uri;
-	ok = ok && c20_streq(*scheme, C20.scheme, C20_SLEN);
-	ok = ok && (C20_HAS_UI ? (c20_streq(*user, C20.user, C20_ULEN) && c20_streq(*pass, C20.key, C20_KLEN)) : (*user == NULL && *pass == NULL));
-	ok = ok && (C20_HOSTKIND == 3 ? *host == NULL : c20_streq(*host, C20.host, C20_HOSTLEN));
-	ok = ok && *port == C20.port;
-	ok = ok && (C20_PLEN ? c20_streq(*path, C20.path, C20_PLEN) : *path == NULL);
-	ok = ok && (C20_QLEN ? c20_streq(*query, C20.query, C20_QLEN) : *query == NULL);
-	ok = ok && (C20_FLEN ? c20_streq(*fragment, C20.frag, C20_FLEN) : *fragment == NULL);
-	CHECK(ok, "C20.H3 [cut] uriSplit accepted the URI and returned exactly the parts it was assembled from");
-	/* from here on the constant KSI_OK and canonical copies: by the CHECK above they equal the real results (a real
-	 * failure is reported by the CHECK; returning the symbolic status would guard every later store by it) */
-	if (res == KSI_OK) {
-	KSI_free(*scheme); KSI_free(*user); KSI_free(*pass); KSI_free(*host); KSI_free(*path); KSI_free(*query); KSI_free(*fragment);
-	}
-	*scheme = dupn(C20.scheme, C20_SLEN);
-	*user = C20_HAS_UI ? dupn(C20.user, C20_ULEN) : NULL;
-	*pass = C20_HAS_UI ? dupn(C20.key, C20_KLEN) : NULL;
-	*host = (C20_HOSTKIND == 3) ? NULL : dupn(C20.host, C20_HOSTLEN);
-	*port = C20.port;
-	*path = C20_PLEN ? dupn(C20.path, C20_PLEN) : NULL;
-	*query = C20_QLEN ? dupn(C20.query, C20_QLEN) : NULL;
-	*fragment = C20_FLEN ? dupn(C20.frag, C20_FLEN) : NULL;
-	return KSI_OK;
-}
-/* ---- cut 2: getClientByUriScheme (expected values from the oracle's own class of the instance's scheme) ---- */
-static int cut_getClientByUriScheme(const char *scheme, const char **replaceScheme) {
-	static const char marker[] = "untouched";
-	const char *r = marker;
-	cut_scheme_calls++;
-	int c = getClientByUriScheme(scheme, &r);
-	const int exp_c = (C20_CLASS == 1 || C20_CLASS == 2) ? URI_HTTP : (C20_CLASS == 3) ? URI_TCP : (C20_CLASS == 4) ? URI_FILE : URI_UNKNOWN;
-	int ok = (c == exp_c);
-	if (C20_CLASS == 1) ok = ok && c20_streq(r, "http", 4);
-	else if (C20_CLASS == 2) ok = ok && c20_streq(r, "https", 5);
-	else if (C20_CLASS == 0) ok = ok && (r == marker);
-	else ok = ok && (r == NULL);
-	CHECK(ok, "C20.H3 [cut] getClientByUriScheme maps the scheme (any letter case) to the expected transport and replacement scheme");
-	if (C20_CLASS == 1) *replaceScheme = "http";
-	else if (C20_CLASS == 2) *replaceScheme = "https";
-	else if (C20_CLASS != 0) *replaceScheme = NULL;
-	return exp_c;
-}
+#define C20_CUT_ID "C20.H3"
+#include "c20_cuts.h"
 
 void harness(void) {
 	VERIF_ctx_init(); KSI_CTX *ctx = VERIF_ctx;
